@@ -26,6 +26,31 @@ var (
 
 type Opts struct {
 	InvalidPct int // probability (percent) that a generated mutation is deliberately invalid
+	// Wide > 0: "wide column" mode. Valid timestamps are k*1000 for k in [0,Wide), qualifiers come from the first two
+	// of Quals and most mutations are SetCells, so that single columns accumulate dozens of versions that are then
+	// overwritten in place and cut by narrow delete ranges.
+	Wide int
+}
+
+func (o Opts) quals() []string {
+	if o.Wide > 0 {
+		return Quals[:2]
+	}
+	return Quals
+}
+
+func (o Opts) val(r *common.Rand) string {
+	if o.Wide > 0 {
+		return common.Pick(r, Vals[:6]) // dozens of versions of BigVal would only slow the re-reads down
+	}
+	return common.Pick(r, Vals)
+}
+
+func (o Opts) goodTS(r *common.Rand) int64 {
+	if o.Wide > 0 {
+		return int64(r.Intn(o.Wide)) * 1000
+	}
+	return common.Pick(r, GoodTS)
 }
 
 func Fam(r *common.Rand, o Opts) string {
@@ -39,10 +64,16 @@ func TS(r *common.Rand, o Opts) int64 {
 	if r.Chance(o.InvalidPct, 100) {
 		return common.Pick(r, BadTS)
 	}
+	if o.Wide > 0 {
+		if r.Chance(1, 40) {
+			return -1
+		}
+		return o.goodTS(r)
+	}
 	if r.Chance(1, 5) {
 		return -1 // server time
 	}
-	return common.Pick(r, GoodTS)
+	return o.goodTS(r)
 }
 
 // RangeBound yields a bound for a delete range.
@@ -50,16 +81,40 @@ func rangeBound(r *common.Rand, o Opts) int64 {
 	if r.Chance(o.InvalidPct, 100) {
 		return common.Pick(r, BadTS)
 	}
-	return common.Pick(r, GoodTS)
+	return o.goodTS(r)
 }
 
 // Mutation generates one mutation over the small colliding universe.
 func Mutation(r *common.Rand, o Opts) model.Mut {
-	switch k := r.Intn(20); {
+	k := r.Intn(20)
+	if o.Wide > 0 {
+		// 90% SetCell, 8% DelCol (always ranged), 1% DelFam, 1% DelRow
+		switch w := r.Intn(100); {
+		case w < 90:
+			k = 0
+		case w < 98:
+			k = 11
+		case w < 99:
+			k = 16
+		default:
+			k = 19
+		}
+	}
+	switch {
 	case k < 11:
-		return model.Mut{Kind: model.SetCell, Fam: Fam(r, o), Qual: common.Pick(r, Quals), TS: TS(r, o), Val: common.Pick(r, Vals)}
+		return model.Mut{Kind: model.SetCell, Fam: Fam(r, o), Qual: common.Pick(r, o.quals()), TS: TS(r, o), Val: o.val(r)}
 	case k < 16:
-		m := model.Mut{Kind: model.DelCol, Fam: Fam(r, o), Qual: common.Pick(r, Quals)}
+		m := model.Mut{Kind: model.DelCol, Fam: Fam(r, o), Qual: common.Pick(r, o.quals())}
+		if o.Wide > 0 {
+			// a narrow band [s, s+w) somewhere in the column
+			m.HasRange = true
+			m.Start = rangeBound(r, o)
+			m.End = m.Start + int64(r.Range(1, 4))*1000
+			if r.Chance(1, 10) {
+				m.End = 0
+			}
+			return m
+		}
 		if r.Chance(3, 4) {
 			m.HasRange = true
 			m.Start = rangeBound(r, o)
